@@ -31,7 +31,7 @@ def errStr : LoadErr → String
   | .majorLtMinor a b => s!"reject majorLtMinor {a} {b}"
   | .noCluster m => s!"reject noCluster {m}"
 
-def jEntry (e : Entry) : Json :=
+def jEntryC17 (e : Entry) : Json :=
   Json.mkObj [("a", jNat e.a), ("b", jNat e.b),
     ("cn", Json.arr (e.cn.map fun (x, y, z) => jNats [x, y, z]).toArray),
     ("mu", Json.arr (e.mu.map fun (x, y, z) => jVec [x, y, z]).toArray),
@@ -53,7 +53,7 @@ def handleC17 : Handler := fun op j =>
         pure (Json.mkObj [("samples", jStrs samples),
           ("data", Json.arr (dps.map fun (i, m, es) =>
             Json.mkObj [("idx", jNat i), ("name", Json.str m),
-              ("entries", Json.arr (es.map jEntry).toArray)]).toArray)])
+              ("entries", Json.arr (es.map jEntryC17).toArray)]).toArray)])
     | .ok cj =>
       let cl ← (← cj.getArr?).toList.mapM asCRow
       let opp ← getRat j "op_prob"
